@@ -15,5 +15,6 @@ def run(ctx, rep):
     facts = ctx.facts()
     rep.rule('E7b', e7b_khi.__doc__.strip().split('\n')[0])
     e7b_khi.run(facts, rep)
+    e7b_khi.check_doubling(facts, rep)
     n = e8_formulas.check_ss(facts, rep, sites=[s for s in e8_formulas.SS_SITES if 'khi' in s[0]])
     rep.floor('E8.F1 ssi formula sites', n, 3)
